@@ -199,6 +199,9 @@ func (p *c17) requiredFields(x *res, ctx *runner.Ctx) {
 		{"get-nil-key", adapt.Op{Kind: adapt.OpGet, Table: spec.Name}},
 		{"delete-nil-key", adapt.Op{Kind: adapt.OpDelete, Table: spec.Name}},
 		{"update-nil-key", adapt.Op{Kind: adapt.OpUpdate, Table: spec.Name, Update: "SET a = :v", Values: val.Item{":v": val.Str("x")}}},
+		{"update-without-expression", adapt.Op{Kind: adapt.OpUpdate, Table: spec.Name, Key: val.Item{"h": val.Str("k")}, NoUpdate: true}},
+		{"update-without-expression-returning", adapt.Op{Kind: adapt.OpUpdate, Table: spec.Name, Key: val.Item{"h": val.Str("k")}, NoUpdate: true, RetOld: true}},
+		{"update-empty-expression", adapt.Op{Kind: adapt.OpUpdate, Table: spec.Name, Key: val.Item{"h": val.Str("k")}}},
 		{"put-empty-table-name", adapt.Op{Kind: adapt.OpPut, Table: "", Item: val.Item{"h": val.Str("k")}}},
 		{"scan-empty-table-name", adapt.Op{Kind: adapt.OpScan, Table: ""}},
 		{"batchwrite-empty", adapt.Op{Kind: adapt.OpBatchWrite}},
